@@ -97,13 +97,26 @@ func (e *ExchangeJSightSchema) buildContent() error {
 }
 
 func (e *ExchangeJSightSchema) CastToObject() *ExchangeJSightSchema {
+	return e.castToObject(map[string]struct{}{})
+}
+
+// castToObject follows the references. The visited set holds the names of the
+// user types already followed: a chain of references that never reaches an
+// object (TYPE @a  @a // {nullable: true}) is not an object.
+func (e *ExchangeJSightSchema) castToObject(visited map[string]struct{}) *ExchangeJSightSchema {
 	switch e.ASTNode.TokenType {
 	case "object":
 		return e
 	case "reference":
-		if ut, ok := e.catalogUserTypes.Get(e.ASTNode.Value); ok {
+		name := e.ASTNode.Value
+		if _, ok := visited[name]; ok {
+			return nil
+		}
+		visited[name] = struct{}{}
+
+		if ut, ok := e.catalogUserTypes.Get(name); ok {
 			if ee, ok := ut.Schema.(*ExchangeJSightSchema); ok {
-				return ee.CastToObject()
+				return ee.castToObject(visited)
 			} else {
 				return nil
 			}
